@@ -1,7 +1,9 @@
 """C17 -- request size caps and content decoding.  Spec: spec/httpgate/Decode.tla."""
 import http.client
 import logging
+import multiprocessing
 import os
+import random
 import threading
 import tracemalloc
 import warnings
@@ -195,11 +197,11 @@ class Crafter:
         rng = self.rng
         if codec == "zstd":
             if decl == "honest":
-                f = self._cached(key, "zh", lambda: U.zstd_frame(plain, sized=True, level=rng.choice([1, 3, 9])))
+                f = self._cached(key, "zh", lambda: U.zstd_frame(plain, sized=True, level=3 if key else rng.choice([1, 3, 9])))
                 assert U.zstd_declared(f) == D
                 return f
             if decl == "absent":
-                f = self._cached(key, "za", lambda: U.zstd_frame(plain, sized=False, level=rng.choice([1, 3])))
+                f = self._cached(key, "za", lambda: U.zstd_frame(plain, sized=False, level=3 if key else rng.choice([1, 3])))
                 assert U.zstd_declared(f) is None
                 return f
             if decl == "low":
@@ -218,7 +220,7 @@ class Crafter:
             return f
         # gzip
         if decl == "honest":
-            return self._cached(key, "gh", lambda: U.gzip_member(plain, level=rng.choice([1, 6, 9])))
+            return self._cached(key, "gh", lambda: U.gzip_member(plain, level=6 if key else rng.choice([1, 6, 9])))
         base = self._cached(key, "gh6", lambda: U.gzip_member(plain, level=6))
         if decl == "low":
             declared = rng.choice([D - 1, 0, rng.randrange(0, D)])
@@ -255,7 +257,7 @@ class Crafter:
         if codec == "zstd":
             out = U.zstd_pad(frame, total)
         else:
-            out = U.gzip_repad(frame, total)
+            out = U.gzip_repad(frame, total, use_name=self.rng.random() < 0.2)
         if out is None:
             raise Skip("cannot pad to the requested wire size")
         return out
@@ -267,7 +269,8 @@ def concretise(case: dict, cr: Crafter, variant: int):
     codec, cap, enc, dec, decl, integ = case["codec"], case["cap"], case["enc"], case["dec"], case["decl"], case["integ"]
     boundary = variant == 0
     bomb = dec == "bomb"
-    n = rng.choice([10, 200, 3000, 20000, rng.randrange(10, 60000)])
+    big = variant == "big"
+    n = rng.randrange(150_000, 260_000) if big else rng.choice([10, 200, 3000, 20000, rng.randrange(10, 60000)])
     plain = cr.bomb_plain() if bomb else cr.plain(n)
     D = len(plain)
     rel_cap = lambda size, rel: (size + (1 if boundary else rng.randrange(1, 4000)) if rel == "lt" else size if rel == "eq"
@@ -292,7 +295,8 @@ def concretise(case: dict, cr: Crafter, variant: int):
         capv = rel_cap(D, dec)
     if case["frames"] == "many":
         k = rng.choice([2, 3])
-        cuts = sorted({D // 2} if bomb else {rng.randrange(1, D) for _ in range(k - 1)})
+        cuts = sorted({D // 2} if bomb else {rng.randrange(70_000, D - 10)} if big
+                      else {rng.randrange(1, D) for _ in range(k - 1)})
         parts = [plain[a:b] for a, b in zip([0] + cuts, cuts + [D])]
         core = b"".join(cr.core(codec, decl, part, 0, key=(key, i) if key else None) for i, part in enumerate(parts))
     else:
@@ -318,38 +322,35 @@ def concretise(case: dict, cr: Crafter, variant: int):
     return capv, rng.choice(SPELL[codec]), body, plain, False
 
 
-def run(ctx: Ctx) -> None:
+# ------------------------------------------------------------------------------------------------ sandbox worker
+TIMEOUT_S = 5.0
+
+
+def _worker(conn, bomb_bytes: int) -> None:
+    """Child process: owns the apps, the observers and the waitress server; executes one request per message.
+    Running the real code in a child lets the parent survive (and report) a request that never returns."""
     warnings.filterwarnings("ignore")
     logging.disable(logging.CRITICAL)
     from vgi_rpc.http.server import make_wsgi_app
 
-    quick = ctx.quick
-    consts = {"Chunk": CHUNK, "Slack": SLACK}
-    invs = ["NeverEmpty", "OnlyClientErrors", "CleanBodiesPass", "OversizeNeverPasses", "UnknownNeverPasses",
-            "DamagedNeverPasses", "ManyFramesLikeOne", "NoCapNo413", "IdentityIsTransparent", "SingleFaultExact", "TransferIrrelevant"]
-    cases = U.enumerate_split(ctx, "httpgate", "Decode", constants=consts, invariants=invs)
-    ctx.exhaustive = True
-    ctx.rule = ("case = consistent row of Decode!Space (cap, codec token, wire size class, decoded size class, size "
-                "declaration, integrity, transfer), all enumerated by TLC; non-trivial = distinct (row, concrete cap, "
-                "Content-Encoding spelling, wire body hash) requests executed; variant 0 of every row uses the exact "
-                "boundary sizes (cap-1 / cap / cap+1), further variants are seeded. Oracle is set-valued for rows with "
-                "several faults.")
-    ctx.assume("decompressor output is counted by wrappers around zstandard.ZstdDecompressor and vgi_rpc._codec.zlib",
-               "what reaches the RPC layer is captured by wrapping _resources._get_request_stream",
-               "chunked transfer goes through waitress on 127.0.0.1 (which de-chunks and sets CONTENT_LENGTH)",
-               f"bomb = {16 if quick else 32} MiB of decoded data; allocation slack {SLACK} bytes on top of cap+chunk",
-               "'disabled' = zstd with VGI_HTTP_DISABLE_ZSTD=1 at app construction")
-
     server, impl = U.build_server()
-    real_dctx, restore = install_observers()
+    install_observers()
     chunked = Chunked()
-    cr = Crafter(server, ctx.rng, (16 if quick else 32) * 1024 * 1024)
+    rng = random.Random(1)
     apps: dict = {}
-
-    def app_for(capv: int, disabled: bool):
+    bomb_plain = None
+    while True:
+        msg = conn.recv()
+        if msg is None:
+            break
+        capv, disabled, hdr, body, plain, transfer, measure = msg
+        if plain is None:
+            if bomb_plain is None:
+                bomb_plain = U.echo_body(server, bomb_bytes, fill=b"\x00")
+            plain = bomb_plain
         k = (capv, disabled)
         if k not in apps:
-            if len(apps) > 400:
+            if len(apps) > 300:
                 apps.clear()
             old = os.environ.pop("VGI_HTTP_DISABLE_ZSTD", None)
             if disabled:
@@ -360,55 +361,145 @@ def run(ctx: Ctx) -> None:
                 os.environ.pop("VGI_HTTP_DISABLE_ZSTD", None)
                 if old is not None:
                     os.environ["VGI_HTTP_DISABLE_ZSTD"] = old
-        return apps[k]
+        app = apps[k]
+        headers = {"Content-Type": U.ARROW_CT, "Content-Encoding": hdr}
+        COUNT.produced, COUNT.reached = 0, None
+        base_now = 0
+        if measure:
+            tracemalloc.start()
+            tracemalloc.reset_peak()
+            base_now = tracemalloc.get_traced_memory()[0]
+        try:
+            if transfer == "cl":
+                st, hd, out = U.wsgi_call(app, "POST", "/echo", body, headers)
+            else:
+                st, hd, out = chunked.post(app, "/echo", body, headers, rng)
+        finally:
+            peak = 0
+            if measure:
+                peak = max(1, tracemalloc.get_traced_memory()[1] - base_now)
+                tracemalloc.stop()
+        reached = COUNT.reached is not None
+        conn.send({"status": st, "reached": reached, "equal": bool(reached and COUNT.reached == plain),
+                   "capv": capv, "produced": COUNT.produced, "peak": peak, "_ctype": U.hget(hd, "content-type")})
 
+
+class Sandbox:
+    def __init__(self, bomb_bytes: int):
+        self.bomb_bytes = bomb_bytes
+        self.mp = multiprocessing.get_context("fork")
+        self.proc = None
+        self.conn = None
+        self.restarts = 0
+
+    def _start(self):
+        parent, child = self.mp.Pipe()
+        self.proc = self.mp.Process(target=_worker, args=(child, self.bomb_bytes), daemon=True)
+        self.proc.start()
+        child.close()
+        self.conn = parent
+
+    def call(self, msg, timeout: float):
+        """-> observation dict, or None when the real code did not answer within ``timeout`` seconds."""
+        if self.proc is None or not self.proc.is_alive():
+            self._start()
+        self.conn.send(msg)
+        if self.conn.poll(timeout):
+            try:
+                return self.conn.recv()
+            except EOFError:
+                pass
+        self.proc.kill()
+        self.proc.join(5)
+        self.proc = None
+        self.restarts += 1
+        return None
+
+    def close(self):
+        if self.proc is not None and self.proc.is_alive():
+            try:
+                self.conn.send(None)
+                self.proc.join(3)
+            except Exception:  # noqa: BLE001
+                pass
+            if self.proc.is_alive():
+                self.proc.kill()
+
+
+def run(ctx: Ctx) -> None:
+    warnings.filterwarnings("ignore")
+    logging.disable(logging.CRITICAL)
+    quick = ctx.quick
+    consts = {"Chunk": CHUNK, "Slack": SLACK}
+    invs = ["NeverEmpty", "OnlyClientErrors", "CleanBodiesPass", "OversizeNeverPasses", "UnknownNeverPasses",
+            "DamagedNeverPasses", "ManyFramesLikeOne", "NoCapNo413", "IdentityIsTransparent", "SingleFaultExact",
+            "TransferIrrelevant"]
+    cases = U.enumerate_split(ctx, "httpgate", "Decode", constants=consts, invariants=invs)
+    ctx.exhaustive = True
+    ctx.rule = ("case = consistent row of Decode!Space (cap, codec token, wire size class, decoded size class, size "
+                "declaration, integrity, one/many frames, transfer), all enumerated by TLC; non-trivial = distinct (row, "
+                "concrete cap, Content-Encoding spelling, wire body hash) requests executed; variant 0 of every row uses "
+                "the exact boundary sizes (cap-1 / cap / cap+1), further variants are seeded. Oracle is set-valued for "
+                "rows with several faults. A request that gets no response within "
+                f"{TIMEOUT_S:.0f} s (twice, in fresh worker processes) is recorded as status 0.")
+    bomb_bytes = (16 if quick else 32) * 1024 * 1024
+    ctx.assume("decompressor output is counted by wrappers around zstandard.ZstdDecompressor and vgi_rpc._codec.zlib",
+               "what reaches the RPC layer is captured by wrapping _resources._get_request_stream",
+               "chunked transfer goes through waitress on 127.0.0.1 (which de-chunks and sets CONTENT_LENGTH)",
+               f"bomb = {bomb_bytes >> 20} MiB of decoded data; allocation slack {SLACK} bytes on top of cap+chunk",
+               "'disabled' = zstd with VGI_HTTP_DISABLE_ZSTD=1 at app construction",
+               "the real code runs in a forked worker process so that a request that never returns can be reported")
+
+    server, _impl = U.build_server()
+    cr = Crafter(server, ctx.rng, bomb_bytes)
+    box = Sandbox(bomb_bytes)
     obs: list[dict] = []
     skipped: dict = {}
     nvar = 2 if quick else 8
+    # many-frame rows additionally get one concretisation whose first frame decodes to more than one 64 KiB chunk
+    # (quick: one such row; thorough: every Content-Length row)
+    big_rows = 0
     try:
         for cj in cases:
             case = cj["case"]
+            want_big = (case["frames"] == "many" and case["dec"] in ("lt", "eq", "gt", "na") and case["integ"] == "ok"
+                        and case["transfer"] == "cl" and case["enc"] in ("lt", "na")
+                        and (not quick or (case["codec"] == "gzip" and case["dec"] == "lt" and big_rows == 0)))
+            plan = list(range(nvar)) + (["big"] if want_big else [])
             done = 0
-            for variant in range(nvar * 3):
-                if done >= nvar:
-                    break
-                try:
-                    capv, hdr, body, plain, disabled = concretise(case, cr, variant if variant < nvar else 1)
-                except Skip as e:
-                    skipped[str(e)] = skipped.get(str(e), 0) + 1
+            for variant in plan:
+                built = None
+                for _try in range(4):
+                    try:
+                        built = concretise(case, cr, variant if (_try == 0 or variant == "big") else 1)
+                        break
+                    except Skip as e:
+                        skipped[str(e)] = skipped.get(str(e), 0) + 1
+                if built is None:
                     continue
+                capv, hdr, body, plain, disabled = built
+                if variant == "big":
+                    big_rows += 1
                 done += 1
-                app = app_for(capv, disabled)
-                headers = {"Content-Type": U.ARROW_CT, "Content-Encoding": hdr}
                 measure = case["dec"] == "bomb" or case["decl"] == "high_over"
-                COUNT.produced, COUNT.reached = 0, None
-                del impl.calls[:]
-                if measure:
-                    tracemalloc.start()
-                    tracemalloc.reset_peak()
-                    base_now = tracemalloc.get_traced_memory()[0]
-                try:
-                    if case["transfer"] == "cl":
-                        st, hd, out = U.wsgi_call(app, "POST", "/echo", body, headers)
-                    else:
-                        st, hd, out = chunked.post(app, "/echo", body, headers, ctx.rng)
-                finally:
-                    peak = 0
-                    if measure:
-                        peak = max(1, tracemalloc.get_traced_memory()[1] - base_now)
-                        tracemalloc.stop()
-                reached = COUNT.reached is not None
-                o = {"status": st, "reached": reached, "equal": bool(reached and COUNT.reached == plain),
-                     "capv": capv, "produced": COUNT.produced, "peak": peak}
-                obs.append({"case": case, "obs": o, "_x": {"content_encoding": hdr, "wire_len": len(body),
-                                                           "plain_len": len(plain), "variant": variant,
-                                                           "ctype": U.hget(hd, "content-type")}, "_e": cj["exp"]})
+                is_bomb = case["dec"] == "bomb"
+                msg = (capv, disabled, hdr, body, None if is_bomb else plain, case["transfer"], measure)
+                o = box.call(msg, TIMEOUT_S * (4 if is_bomb else 1))
+                if o is None:
+                    o = box.call(msg, TIMEOUT_S * (4 if is_bomb else 1))       # confirm in a fresh worker
+                hang = o is None
+                if hang:
+                    o = {"status": 0, "reached": False, "equal": False, "capv": capv, "produced": 0, "peak": 0,
+                         "_ctype": None}
+                ctype = o.pop("_ctype")
+                obs.append({"case": case, "obs": o, "_e": cj["exp"], "_hang": hang,
+                            "_x": {"content_encoding": hdr, "wire_len": len(body), "plain_len": len(plain),
+                                   "variant": variant, "ctype": ctype}})
                 ctx.case([case, capv, hdr, len(body), hash(body)])
             if done == 0:
                 raise MachineryError(f"no concrete request could be built for row {case} ({skipped})")
     finally:
-        restore()
-        chunked.close()
+        box.close()
     for o in obs[:: max(1, len(obs) // 5)][:5]:
         ctx.sample({"row": o["case"], "concrete": o["_x"], "observed": o["obs"]})
     bad = U.judge_split(ctx, "httpgate", "Decode", [{"case": o["case"], "obs": o["obs"]} for o in obs], constants=consts)
@@ -418,7 +509,9 @@ def run(ctx: Ctx) -> None:
         for cl in clauses:
             ctx.violation(cl, {"codec": c["codec"], "cap": c["cap"], "enc": c["enc"], "dec": c["dec"], "decl": c["decl"],
                                "integ": c["integ"], "frames": c["frames"], "transfer": c["transfer"],
-                               "status": o["obs"]["status"], "delivered_intact": o["obs"]["equal"]},
+                               "status": o["obs"]["status"], "delivered_intact": o["obs"]["equal"],
+                               "no_response": o["_hang"]},
                           {"row": c, "admissible": o["_e"], "concrete": o["_x"], "observed": o["obs"]})
     ctx.extra["rows"] = len(cases)
     ctx.extra["skipped_variants"] = skipped
+    ctx.extra["worker_restarts"] = box.restarts
